@@ -35,7 +35,7 @@ package introspection
 //@   requires j != nil && fullType != nil
 //@   ghost var g_passed int = -1
 //@   at call Document.ImportInterfaceTypeDefinitionWithDirectives: ghost g_passed = len(arg4)
-//@   at call Document.ImportInterfaceTypeDefinition: ghost g_passed = 0
+//@   at call? Document.ImportInterfaceTypeDefinition: ghost g_passed = 0
 //@   at call JsonConverter.importFields: assert {the.types.fields.are.imported} arg1 == fullType.Fields
 //@   ensures {implemented.interfaces.reach.the.document} result == nil ==> g_passed == old(len(fullType.Interfaces))
 //@   modifies *
@@ -94,7 +94,7 @@ package introspection
 
 //@ func JsonConverter.importFullType
 //@   requires j != nil && fullType != nil
-//@   at call Document.ImportScalarTypeDefinition: assert {a.specifiedBy.url.is.preserved} fullType.SpecifiedByURL == nil
+//@   at call? Document.ImportScalarTypeDefinition: assert {a.specifiedBy.url.is.preserved} fullType.SpecifiedByURL == nil
 //@   at call Document.ImportScalarTypeDefinitionWithDirectives: assert {a.specifiedBy.url.is.preserved} (len(arg3) > 0) == (fullType.SpecifiedByURL != nil)
 //@   modifies *
 //@   safety none
